@@ -4854,8 +4854,18 @@ class Pack:
         base_type = type
         base_obj = obj
         delta_stack = []
+        # Offsets of the deltas already on the chain: a crafted pack can make
+        # deltas (through REF_DELTA names, alone or combined with OFS_DELTA)
+        # refer to each other in a cycle, which would otherwise never end.
+        visited_offsets: set[int] = set()
         while base_type in DELTA_TYPES:
             prev_offset = base_offset
+            if prev_offset is not None:
+                if prev_offset in visited_offsets:
+                    raise ApplyDeltaError(
+                        f"delta chain loops back to offset {prev_offset}"
+                    )
+                visited_offsets.add(prev_offset)
             if get_ref is None:
                 get_ref = self.get_ref
             assert isinstance(base_obj, tuple), (
@@ -4869,6 +4879,10 @@ class Pack:
                 )
                 assert base_offset is not None
                 base_offset = base_offset - delta_offset
+                if base_offset < 0:
+                    raise ApplyDeltaError(
+                        f"OFS_DELTA base offset {delta_offset} points before the pack"
+                    )
                 base_type, base_obj = self.data.get_object_at(base_offset)
                 assert isinstance(base_type, int)
             elif base_type == REF_DELTA:
